@@ -89,8 +89,14 @@ def gen_expr(rng, depth, boolean=True):
         return ('or', gen_expr(rng, depth - 1), gen_expr(rng, depth - 1))
     if r < 0.84:
         return ('not', gen_expr(rng, depth - 1))
-    if r < 0.91:
+    if r < 0.88:
         return ('neg', gen_expr(rng, depth - 1))
+    if r < 0.91:
+        return ('ite', gen_expr(rng, depth - 1), gen_expr(rng, depth - 1), gen_expr(rng, depth - 1))
+    if r < 0.93:
+        return ('cast', gen_expr(rng, depth - 1))
+    if r < 0.96:
+        return ('in', gen_expr(rng, depth - 1)) + tuple(gen_expr(rng, max(depth - 2, 0)) for _ in range(rng.randint(1, 3)))
     return ('btw', gen_expr(rng, depth - 1), gen_expr(rng, depth - 1), gen_expr(rng, depth - 1))
 
 
@@ -125,6 +131,8 @@ def expr_line(t):
         return '%s %d' % (k, t[1])
     if k in ('cmp', 'ar'):
         return '%s %s %s %s' % (k, t[1].replace(' ', '_'), expr_line(t[2]), expr_line(t[3]))
+    if k == 'in':
+        return 'in %d %s' % (len(t) - 2, ' '.join(expr_line(x) for x in t[1:]))
     return k + ' ' + ' '.join(expr_line(x) for x in t[1:])
 
 
@@ -145,6 +153,12 @@ def expr_ast(t):
         return A.UnaryOperation(op='not', args=[expr_ast(t[1])])
     if k == 'neg':
         return A.UnaryOperation(op='-', args=[expr_ast(t[1])])
+    if k == 'ite':
+        return A.Case(rules=[[expr_ast(t[1]), expr_ast(t[2])]], default=expr_ast(t[3]))
+    if k == 'cast':
+        return A.TypeCast(type_name='INT', arg=expr_ast(t[1]))
+    if k == 'in':
+        return A.BinaryOperation(op='in', args=[expr_ast(t[1]), A.Tuple([expr_ast(x) for x in t[2:]])])
     return A.BetweenOperation(args=[expr_ast(x) for x in t[1:]])
 
 
@@ -165,6 +179,12 @@ def expr_sql(t):
         return '(NOT %s)' % expr_sql(t[1])
     if k == 'neg':
         return '(- %s)' % expr_sql(t[1])
+    if k == 'ite':
+        return '(CASE WHEN %s THEN %s ELSE %s END)' % tuple(expr_sql(x) for x in t[1:])
+    if k == 'cast':
+        return 'CAST(%s AS INTEGER)' % expr_sql(t[1])
+    if k == 'in':
+        return '(%s IN (%s))' % (expr_sql(t[1]), ', '.join(expr_sql(x) for x in t[2:]))
     return '(%s BETWEEN %s AND %s)' % tuple(expr_sql(x) for x in t[1:])
 
 
@@ -240,13 +260,19 @@ def repair_double_minus(orig, rend, ast):
     return rend.replace('--', '- -')
 
 
+def repair_asboolean(orig, rend, ast):
+    a = repair_case_asboolean(orig, rend, ast)
+    b = repair_paren_asboolean(orig, a or rend, ast)
+    return b or a
+
+
 def not_over_arith(ast):
     """0: no NOT stands over arithmetic; 1: some does; 2: a NOT over NOT over arithmetic exists"""
     from mindsdb_sql.parser import ast as A
 
     def arith(n):
         return (isinstance(n, A.BinaryOperation) and n.op in ('+', '-', '*', '/', '%')) or \
-            (isinstance(n, A.UnaryOperation) and n.op == '-')
+            (isinstance(n, A.UnaryOperation) and n.op == '-') or isinstance(n, A.Case)
     best = 0
     for n in ast_nodes(ast):
         if isinstance(n, A.UnaryOperation) and str(n.op).lower() == 'not':
@@ -258,7 +284,41 @@ def not_over_arith(ast):
     return best
 
 
-def repair_asboolean(orig, rend, ast):
+def repair_case_asboolean(orig, rend, ast):
+    """a CASE that SQLAlchemy types as Boolean is printed `CASE … END = 1` where a truth value is expected
+    (operand of AND / OR, WHERE) and `CASE … END = 0` under NOT: ungrouped, and `= 1` is false for truthy values other
+    than 1.  Wrap `CASE … END = 0` in parentheses and replace `CASE … END = 1` by `(CASE … END != 0)`
+    (only where the original text has no such comparison)."""
+    from mindsdb_sql.parser import ast as A
+    if ast is not None and not any(isinstance(n, A.Case) for n in ast_nodes(ast)):
+        return None
+    if re.search(r'\bEND\s*\)*\s*=\s*[01]\b', orig):
+        return None
+    cur, changed = rend, False
+    for _ in range(30):
+        toks = [(m.start(), m.group(0).upper()) for m in re.finditer(r'\bCASE\b|\bEND\b', cur, re.I)]
+        done = True
+        for m in re.finditer(r'\bEND = ([01])\b', cur):
+            depth, start = 0, None
+            for pos, tk in reversed([t for t in toks if t[0] <= m.start()]):
+                depth += 1 if tk == 'END' else -1
+                if depth == 0:
+                    start = pos
+                    break
+            if start is None:
+                continue
+            if start > 0 and cur[start - 1] == '(' and cur[m.end():m.end() + 1] == ')':
+                continue                      # already grouped
+            body = cur[start:m.start() + 3]
+            cur = cur[:start] + ('(%s = 0)' % body if m.group(1) == '0' else '(%s != 0)' % body) + cur[m.end():]
+            changed, done = True, False
+            break
+        if done:
+            break
+    return cur if changed else None
+
+
+def repair_paren_asboolean(orig, rend, ast):
     """`NOT x` / `NOT NOT x` over Boolean-typed arithmetic is printed `(x) = 0` / `(x) = 1` by the sqlite compiler,
     without a grouping of its own: wrap every `( … ) = 0|1` in parentheses"""
     if ast is not None and not not_over_arith(ast):
@@ -398,7 +458,7 @@ REPAIRS = collections.OrderedDict([
     ('string-plus', repair_string_plus),
     ('double-minus', repair_double_minus),
     ('cast-label', repair_cast_label),
-    ('asboolean-grouping', repair_asboolean),
+    ('asboolean-grouping', lambda orig, rend, ast: repair_asboolean(orig, rend, ast)),
     ('case-alias', repair_case_alias),
 ])
 SIGS = collections.OrderedDict([
@@ -435,23 +495,23 @@ class Prober:
         """names of the known-finding signatures that explain the difference ([] = unexplained)"""
         rep = REPAIRS
         RR = self.R[dialect]
-        cur, applied = rend, []
-        for name, fn in rep.items():
-            new = fn(orig, cur, ast, RR) if name == 'not-is' else fn(orig, cur, ast)
-            if new:
-                cur, applied = new, applied + [name]
-        if applied and self.differs(case, orig, cur) is None:
-            need = []
-            for name in applied:   # which repairs are necessary
-                c2 = rend
-                for n2 in applied:
-                    if n2 != name:
-                        fn = rep[n2]
-                        new = fn(orig, c2, ast, RR) if n2 == 'not-is' else fn(orig, c2, ast)
-                        c2 = new or c2
-                if self.differs(case, orig, c2) is not None:
-                    need.append(name)
-            return need or applied
+
+        def apply(names):
+            cur = rend
+            for name in rep:
+                if name in names:
+                    fn = rep[name]
+                    new = fn(orig, cur, ast, RR) if name == 'not-is' else fn(orig, cur, ast)
+                    cur = new or cur
+            return cur
+        applicable = [n for n in rep if apply([n]) != rend]
+        import itertools
+        for size in range(1, min(len(applicable), 4) + 1):
+            for names in itertools.combinations(applicable, size):
+                if self.differs(case, orig, apply(names)) is None:
+                    return list(names)
+        applied = applicable
+        cur = apply(applicable)
         out = []
         d2 = diff if not applied else (self.differs(case, orig, cur) or diff)
         for name, sig in SIGS.items():
@@ -482,6 +542,9 @@ class Prober:
                 continue
             if diff is None:
                 self.stats[('agree-fallback:' if fallback else 'agree:') + d] += 1
+                continue
+            if fallback and '\\' in orig:
+                self.stats['fallback-backslash(AST printer, C01/C04)'] += 1   # str(ast) doubles backslashes in literals
                 continue
             if fallback and diff['kind'] == 'rendered-text-fails':
                 self.stats['fallback-text-not-sqlite'] += 1   # the AST printer's dialect, not a rendering (C17 / C01)
@@ -550,7 +613,10 @@ def run(chk):
     # ---------------------------------------------------------------- correspondence: expressions
     trees = [('exh', t) for d in (1, 2) for t in all_exprs(d)]
     for i in range(40000 if deep else (6000 if broken else 2500)):
-        trees.append(('rnd', gen_expr(rng, rng.randint(2, 5))))
+        t = gen_expr(rng, rng.randint(2, 5))
+        if t[0] in ('ite', 'cast'):      # a bare CASE / CAST is not a WHERE condition (the renderer appends `= 1`)
+            t = ('cmp', '=', t, ('c', 0))
+        trees.append(('rnd', t))
     lines = ['E ' + expr_line(t) for _, t in trees]
     spellings = sorted(set(side['join_spellings']) | {'RIGHT OUTER JOIN', 'left join', 'Full Join'})
     jl = [(sp, on) for sp in spellings for on in (1, 0)]
@@ -588,7 +654,8 @@ def run(chk):
                 continue
             # validation of the model's verdict (and of the trusted engine table) by execution
             good = fl['ok'] == '1' and fl['saok'] == '1' and fl['regroup'] == '1'
-            if src == 'exh' or deep or dist['expr/evaluated'] < 1200:
+            if src == 'exh' or deep or dist['expr/evaluated-rnd'] < 1200:
+                dist['expr/evaluated-' + src] += 1
                 dist['expr/evaluated'] += 1
                 osql, rsql = expr_sql(t), r.split(' WHERE ', 1)[1]
                 bad = None
@@ -606,7 +673,7 @@ def run(chk):
                              text=case['text'], rendered=rsql, kind='expr', tree=expr_line(t), model_flags=flags,
                              diff=dict(kind='value-differs', **bad), expr_tree=t)
                     causes = []
-                    if fl['mod'] == '0' and repair_asboolean('', rsql, expr_ast(t)):
+                    if repair_asboolean('', rsql, expr_ast(t)):
                         fixed = repair_asboolean('', rsql, expr_ast(t))
                         if all(value_of(conn, osql, e2) == value_of(conn, fixed, e2) or value_of(conn, osql, e2)[0] != 'ok'
                                for e2 in ENVS):
